@@ -48,7 +48,7 @@ def canon (e : Entry) : Bool :=
   canonR e.op e.lt e.rt == some (e.rexp, e.zeroGuard)
 
 section
-variable {F : Type} (ops : FOps F) (reMatch : String → String → Option Bool)
+variable {F : Type} (ops : FOps F) (reMatch : Bytes → Bytes → Option Bool)
 
 theorem canon_sound (e : Entry) (h : canon e = true) (vl vr : Value F) (hl : vl.ty = e.lt) (hr : vr.ty = e.rt) :
     e.compute ops reMatch vl vr = refBinop ops reMatch e.op vl vr ∧ e.compute ops reMatch vl vr ≠ .trap := by
